@@ -8,6 +8,7 @@
   block-aligned input under a 32-byte key and IV). `toyPrims` shows `P.Ok` is satisfiable.
 -/
 import Mtv.Lemmas.C03
+import Mtv.Envelope.Seq
 namespace Mtv.Envelope
 open Mtv
 
@@ -159,5 +160,62 @@ theorem unenc_roundtrip (mid : Nat) (body : Bytes) (hmid : mid < 2 ^ 64) (hpar :
   simp only [Unenc.deserialize, c1, c2, if_false, hmidr, hp, hlenr, c3, hbody]
 
 example := unenc_roundtrip (2 ^ 64 - 1) [1, 2, 3] (by decide) (by decide) (by decide)
+
+/-! ## sequences of operations in one process (session 9)
+
+The clauses above are per operation. A client process performs many, for several clients (auth keys, salts,
+sessions), some of them refused (no key yet, a damaged session file; a packet that is not the server's). The
+model of an operation is a function of its arguments; written as the loop of calls a process makes, that
+says: the n-th result is the n-th request's result on its own, whatever came before — in particular
+whatever was REFUSED before. The `c03.mix` correspondence operation ties this statement to the code
+(a real sequence in one process, garbage collector off, against the model's per-step answers). -/
+
+/-- Sealing a list of messages one after another gives the list of their individual sealings, for every
+list (any number of clients, any mixture of refused and accepted requests): the model has no state. -/
+theorem seal_sequence_independent (P : Prims) (reqs : List SealReq) :
+    sealSeq P reqs = reqs.map (sealOne P) := by
+  simp [sealSeq, sealLoop_eq]
+
+/-- the same for the receive path: opening a list of packets one after another gives the list of their
+individual openings -/
+theorem open_sequence_independent (P : Prims) (reqs : List OpenReq) :
+    openSeq P reqs = reqs.map (openOne P) := by
+  simp [openSeq, openLoop_eq]
+
+/-- non-vacuity: a send refused for want of a key, then a send of a healthy client, then a refused one again —
+the results are the three individual ones, the first being the refusal -/
+example : sealSeq toyPrims [⟨[], 1, 2, 4, 0, true, [9, 9]⟩, ⟨zeros 256, 5, 6, 8, 2, false, [1, 2, 3]⟩, ⟨zeros 100, 5, 6, 8, 2, false, []⟩]
+    = [.err "shortKey", sealOne toyPrims ⟨zeros 256, 5, 6, 8, 2, false, [1, 2, 3]⟩, .err "shortKey"] := by
+  rw [seal_sequence_independent]; rfl
+
+/-- Clause "a conformant server recovers precisely those fields", for a process's whole history: whatever
+requests `pre` were served before (refused or accepted, of this client or others) and whatever follow, the
+packet produced for a request with a 256-byte key and fields in range is opened by the specification's
+server to exactly that request's salt, session id, msg_id, seq_no and body. -/
+theorem seal_in_sequence_opens {P : Prims} (hP : P.Ok) (pre post : List SealReq) (r : SealReq)
+    (hk : r.key.length = 256) (h1 : r.salt < 2 ^ 64) (h2 : r.sid < 2 ^ 64) (h3 : r.mid < 2 ^ 64)
+    (h4 : r.seq < 2 ^ 32) (h5 : r.body.length < 2 ^ 31) :
+    ∃ pkt, (sealSeq P (pre ++ r :: post))[pre.length]? = some (.ok pkt) ∧
+      Spec.serverOpen P r.key pkt = some ⟨r.salt, r.sid, r.mid, if r.ack then r.seq ||| 1 else r.seq, r.body⟩ := by
+  obtain ⟨pkt, hs, ho⟩ := serverOpen_sealClient hP r.key r.salt r.sid r.mid r.seq r.ack r.body hk h1 h2 h3 h4 h5
+  refine ⟨pkt, ?_, ho⟩
+  rw [seal_sequence_independent]
+  simp [sealOne, hs]
+
+example := seal_in_sequence_opens toyPrims_ok [⟨[], 1, 2, 4, 0, true, [9, 9]⟩, ⟨zeros 100, 0, 0, 0, 0, false, []⟩] []
+  ⟨zeros 256, 2 ^ 64 - 1, 0, 12, 7, true, [1, 2, 3, 4, 5]⟩ (by simp) (by decide) (by decide) (by decide) (by decide) (by decide)
+
+/-- … and on the receive path: whatever packets were opened or refused before (and whatever follow), the packet a
+conformant server sealed for this client is opened to exactly its content. -/
+theorem open_in_sequence_opens {P : Prims} (hP : P.Ok) (pre post : List OpenReq) (key : Bytes) (m : Msg) (pad : Bytes)
+    (hk : key.length = 256) (hm : m.WF) (hpar : serverParity m.mid)
+    (hal : (32 + m.body.length + pad.length) % 16 = 0) :
+    (openSeq P (pre ++ ⟨key, Spec.serverSeal P key m pad⟩ :: post))[pre.length]? = some (.ok m) := by
+  rw [open_sequence_independent]
+  simp [openOne, openClient_serverSeal hP key m pad hk hm hpar hal]
+
+/-- non-vacuity: two refused packets (a foreign key id; too short to hold anything) before the server's packet -/
+example := open_in_sequence_opens toyPrims_ok [⟨zeros 256, zeros 56⟩, ⟨zeros 256, []⟩] [] (zeros 256)
+  ⟨5, 6, 2 ^ 64 - 1, 9, [1, 2, 3]⟩ (zeros 13) (by simp) (by decide) (by decide) (by decide)
 
 end Mtv.Envelope
